@@ -27,6 +27,10 @@ def specSuffix (a b : String) : String := if a = b then a else a ++ " SPECDIFF "
 
 def step (s : St) (toks : List String) : IO (St × Bool) := do
   match toks with
+  | ["newoom", _size] =>
+    -- opens of the existing buffer that fail for lack of memory (or succeed and are closed at once): nothing changes
+    if s.seg.isNone then IO.println "bad-op"; return (s, false)
+    IO.println "ok"; return (s, false)
   | ["new", h, size] =>
     match h.toNat?, size.toNat? with
     | some h, some size =>
